@@ -22,10 +22,11 @@ sys.path.insert(0, os.path.dirname(os.path.dirname(os.path.abspath(__file__))))
 import common  # noqa: E402
 
 KEY_MIDSEND = "c10:worker-killed-mid-result-send:manager-blocked-in-recv"
-DEATH_IN_TASK = ("mgr_busy", "arg_unpickle", "task_start", "mid_task", "result_pickle", "mid_send", "after_send")
+KEY_STALE = "c10:worker-respawned-while-manager-asleep:death-unnoticed-until-next-event"
+DEATH_IN_TASK = ("respawn", "mgr_busy", "arg_unpickle", "task_start", "mid_task", "result_pickle", "mid_send", "after_send")
 UNSERIALIZE = ("arg_unloadable", "result_garbage")
 BETWEEN = ("idle_settled", "idle_unsettled", "startup_gen", "startup_reduce", "submit_window")
-TRAP = {"mgr_busy": "TDieBusy", "arg_unpickle": "TDie", "task_start": "TDie", "mid_task": "TDie", "result_pickle": "TDie",
+TRAP = {"respawn": "TDie", "mgr_busy": "TDieBusy", "arg_unpickle": "TDie", "task_start": "TDie", "mid_task": "TDie", "result_pickle": "TDie",
         "mid_send": "TMidSend", "after_send": "TAfterSend", "result_garbage": "TGarbage",
         "arg_unloadable": "TBadArgs"}
 
@@ -36,9 +37,14 @@ EXTRA_SIGNALS = ["SIGRT+1", "SIGRT+5", "SIGRT+12", "SIGRT+29", "SIGABRT", "SIGBU
 
 # ------------------------------------------------------------------ scenarios
 def sc(kind, how="SIGKILL", n_jobs=2, victims=(0,), managed=False, n_tasks=8, sleep=0.05, gen=False, big=0,
-       watchdog=60):
+       watchdog=60, n_tasks1=None):
     if kind == "mid_send":
         watchdog = 12          # the known finding F27 hangs: do not wait a minute for it
+    if kind == "respawn" and n_tasks1 == 1:
+        watchdog = 15          # the known finding F28 delays the error by the idle time-out (300 s)
+    if n_tasks1:
+        return {"kind": kind, "how": how, "n_jobs": n_jobs, "victims": list(victims), "managed": managed,
+                "n_tasks": n_tasks, "sleep": sleep, "gen": gen, "big": big, "watchdog": watchdog, "n_tasks1": n_tasks1}
     return {"kind": kind, "how": how, "n_jobs": n_jobs, "victims": list(victims), "managed": managed,
             "n_tasks": n_tasks, "sleep": sleep, "gen": gen, "big": big, "watchdog": watchdog}
 
@@ -95,13 +101,24 @@ def quick_scenarios(rng):
         sc("submit_window", "SIGKILL", 2, [0]),
         sc("submit_window", "SIGKILL", 3, [0, 1, 2], managed=True),
         sc("submit_window", "SIGTERM", 2, [1], managed=True),
+        # workers respawned by the submit itself (all exited cleanly, as on idle time-out) while the manager thread
+        # sleeps in wait(): single-task call whose worker dies (F28), and a many-task call (other results wake the
+        # manager up)
+        # death while call items that do not fit in the call pipe (> 64 KiB each, more tasks than workers) are still
+        # buffered in the queue feeder thread: terminate_broken / shutdown must not block on that thread
+        sc("mid_task", "SIGKILL", 2, [0], n_tasks=6, sleep=0.6, big=2000000),
+        sc("mid_task", "SIGTERM", 3, [1], managed=True, n_tasks=9, sleep=0.6, big=1000000),
+        sc("respawn", "SIGKILL", 2, [0], n_tasks1=1),
+        sc("respawn", "exit", 3, [0], managed=True, n_tasks1=1),
+        sc("respawn", "SIGKILL", 2, [1]),
+        sc("respawn", "SIGSEGV", 3, [2], managed=True),
     ]
     return S + random_scenarios(rng, 3)
 
 
 def random_scenarios(rng, n, allow_midsend=False):
     out = []
-    kinds = ["mgr_busy", "submit_window", "arg_unpickle", "task_start", "mid_task", "result_pickle", "after_send",
+    kinds = ["respawn", "mgr_busy", "submit_window", "arg_unpickle", "task_start", "mid_task", "result_pickle", "after_send",
              "idle_settled", "idle_unsettled", "startup_gen", "startup_reduce", "arg_unloadable", "result_garbage"]
     for _ in range(n):
         kind = rng.choice(kinds + (["mid_send"] if allow_midsend else []))
@@ -112,6 +129,8 @@ def random_scenarios(rng, n, allow_midsend=False):
             how = rng.choice(["SIGKILL", "SIGSEGV", "SIGTERM"] + EXTRA_SIGNALS)
         elif kind == "after_send":
             victims, how = [0], "SIGKILL"
+        elif kind == "respawn":
+            victims, how = [0], rng.choice(["SIGKILL", "SIGSEGV", "exit"] + EXTRA_SIGNALS)
         elif kind == "mgr_busy":
             victims, how = [1], rng.choice(["SIGKILL", "SIGSEGV", "exit"] + EXTRA_SIGNALS)
         elif kind in UNSERIALIZE or kind == "mid_send":
@@ -120,6 +139,7 @@ def random_scenarios(rng, n, allow_midsend=False):
             victims = sorted(rng.sample(range(n_tasks), rng.randint(1, min(n_jobs, 3))))
             how = rng.choice(["SIGKILL", "SIGSEGV", "exit"] + EXTRA_SIGNALS)
         out.append(sc(kind, how, n_jobs, victims, managed=rng.random() < 0.5, n_tasks=n_tasks,
+                      n_tasks1=(rng.choice([1, None]) if kind == "respawn" else None),
                       sleep=0.2 if kind == "after_send" else rng.choice([0.0, 0.02, 0.05]),
                       gen=rng.random() < 0.15, big=rng.choice([0, 0, 0, 200000])))
     return out
@@ -237,6 +257,7 @@ def oracle(s, r):
     hang = None
     if r["hung_call"] is not None:
         hang = {"call": r["hung_call"],
+                "manager_in_wait": bool(re.search(r"in wait\n(?:.*\n){0,2}?.*in wait_result_broken_or_wakeup", r["dump"])),
                 "manager_in_recv": bool(re.search(r"in _recv\n(?:.*\n){0,4}?.*in wait_result_broken_or_wakeup", r["dump"]))}
         return bad, hang
     if any(c is None for c in cl):
@@ -325,7 +346,10 @@ def macros(s, variant):
     if kind in TRAP:
         trap = "TAfterSendSeen" if variant == "seen" else TRAP[kind]
         tr = "; ".join("(%d, %s)" % (v, trap) for v in s["victims"])
-        m += ["MCall %d %d [%s]" % (n, burst, tr), "MRounds %d" % R]
+        n1 = s.get("n_tasks1") or n
+        if kind == "respawn":
+            m += ["MRetireAll"]
+        m += ["MCall %d %d [%s]" % (n1, min(n1, burst), tr), "MRounds %d" % R]
     elif kind in ("idle_settled", "idle_unsettled"):
         m += kills + (["MMgr 3"] if variant == "plain" else []) + ok_call
     elif kind == "startup_gen":
@@ -384,7 +408,8 @@ def agrees(s, r, p):
         return False
     if cl != p["classes"]:
         return False
-    want = [1 if (k == 1 and s["kind"] == "submit_window") else s["n_tasks"] for k in range(len(p["classes"]))]
+    n1 = s.get("n_tasks1") or (1 if s["kind"] == "submit_window" else s["n_tasks"])
+    want = [n1 if k == 1 else s["n_tasks"] for k in range(len(p["classes"]))]
     if any(c == 0 and ln != w for c, ln, w in zip(p["classes"], p["lens"], want)):
         return False
     if s["kind"] != "none":
@@ -451,12 +476,20 @@ def run(ctx):
     # deterministic by construction = scripted reproduction); confirmed => VIOLATION, else inconclusive
     inconclusive = 0
     midsend_hangs = 0
+    stale_hangs = set()     # scenarios on which model (current process set) and code (stale set) are KNOWN to differ: F28
     for i, s, r, hang in hangs:
         if s["kind"] == "mid_send" and hang["call"] == 1 and hang["manager_in_recv"]:
             midsend_hangs += 1
             ctx.violation("worker killed in the middle of sending its result: the executor manager thread blocks forever "
                           "in result_reader.recv() and Parallel.__call__ never returns (watchdog %ds)" % s["watchdog"],
                           {"kind": "known-hang", "scenario": s}, finding_key=KEY_MIDSEND)
+            continue
+        if s["kind"] == "respawn" and hang["call"] == 1 and hang["manager_in_wait"]:
+            stale_hangs.add(i)
+            ctx.violation("workers respawned by submit while the manager thread sleeps in wait(): the death of a new "
+                          "worker is not noticed (stale sentinel list) until another event arrives; a single-task call "
+                          "does not return within %d s (idle time-out is 300 s)" % s["watchdog"],
+                          {"kind": "known-hang", "scenario": s}, finding_key=KEY_STALE)
             continue
         if len([v for v in viol if v[1].get("kind") == "hang"]) >= 3:
             continue
@@ -476,8 +509,10 @@ def run(ctx):
     n_model = 0
     try:
         preds = model_predictions(ctx, scenarios, results)
-        for s, r, ps in zip(scenarios, results, preds):
+        for i, (s, r, ps) in enumerate(zip(scenarios, results, preds)):
             n_model += len(ps)
+            if i in stale_hangs:
+                continue        # the disagreement IS finding F28 (C10_stale_watch_refuted), already reported
             if not any(agrees(s, r, p) for p in ps):
                 disagreements.append({"scenario": s, "model": [{k: p[k] for k in ("classes", "blocked", "stuck", "fresh")} for p in ps],
                                       "impl": {"classes": [klass(c) for c in r["calls"]], "hung_call": r["hung_call"],
@@ -516,7 +551,7 @@ def run(ctx):
         "scenario_kinds": stats["kinds"],
         "outcome_classes_per_kind": {k: [json.dumps(x) for x in v][:6] for k, v in stats["classes"].items()},
         "class_legend": "0 ok list, 1 TerminatedWorkerError, 2 BrokenProcessPool, 3 shutdown error, 5 other exception, 9 wrong list",
-        "hangs_seen": len(hangs), "hangs_known_midsend": midsend_hangs, "inconclusive_timeouts": inconclusive,
+        "hangs_seen": len(hangs), "hangs_known_midsend": midsend_hangs, "hangs_known_stale_watch": len(stale_hangs), "inconclusive_timeouts": inconclusive,
         "disagreements": len(disagreements),
         "injection_wall_s": round(time.time() - t0, 1),
         "max_call_latency_s": max([c["secs"] for r in results for c in r["calls"] if c] or [0]),
